@@ -11,7 +11,7 @@ from models import Some, NONE, Ok, Err, deref, as_list
 from natives_fs import PStr, text_of
 from reference import Reject
 
-FILES = {"F_ab": b"a\0./b/\0", "F_dash_nl": b"-n\0x\ny\0", "F_hole": b"a\0\0b\0", "F_empty": b"", "F_nofinal": b"a\0b", "F_onlynul": b"\0"}
+FILES = {"F_ab": b"a\0./b/\0", "F_dash_nl": b"-n\0x\ny\0", "F_hole": b"a\0\0b\0", "F_empty": b"", "F_nofinal": b"a\0b", "F_onlynul": b"\0", "F_hole3": b"a\0\0b\0c\0"}
 VOCAB = ["-files0-from"] + list(FILES) + ["F_missing", "a", ".", "-L", "--", "-print", "-quit", "!", "(", ")", "-bogus"]
 
 
@@ -176,6 +176,26 @@ def install_models():
         deref(a[0]).items.extend(items[x:y])
         return UNIT
     models.EXACT["<Vec<String> as Extend>::extend"] = extend
+    def position(m, a, raw):
+        it = deref(a[0])
+        items, pos, end = it.fields
+        for i in range(pos, end):
+            if _closure(m, raw, [a[1], Ptr(items, i)]):
+                it.fields[1] = i + 1
+                return Some(i - pos)
+        return NONE()
+
+    def swap_remove(m, a, raw):
+        v = deref(a[0])
+        i = a[1]
+        if i >= len(v.items):
+            raise RustPanic("swap_remove index out of bounds")
+        out = v.items[i]
+        v.items[i] = v.items[-1]
+        v.items.pop()
+        return out
+    models.EXACT["<Iter as Iterator>::position"] = position
+    models.EXACT["Vec::swap_remove"] = swap_remove
     models.EXACT["Option::as_ref"] = lambda m, a, raw: (Some(Ptr(deref(a[0]).fields, 0)) if deref(a[0]).variant == "Some" else NONE())
     for k, f in (("slice::split", split), ("<Split as Iterator>::collect", split_collect), ("Option::is_some_and", is_some_and), ("<Iter as Iterator>::filter_map", filter_map),
                  ("<FilterMap as Iterator>::map", map_), ("<Map as Iterator>::collect", collect), ("<Iter as Iterator>::any", any_), ("Vec::retain", retain),
